@@ -61,6 +61,20 @@ def dispatchLA : P String := do
     let n ← pNat; let m ← pNat
     let W1 ← pM n n; let U ← pM n m; let W2 ← pM m m
     pure ("ok " ++ dump (nuclearLmi W1 U W2))
+  | "post" => do
+    -- dims: model state a, filter state b, model output c, input d, filter output e
+    let a ← pNat; let b ← pNat; let c ← pNat; let d ← pNat; let e ← pNat
+    let Am ← pM a a; let Bm ← pM a d; let Cm ← pM c a; let Dm ← pM c d
+    let Aw ← pM b b; let Bw ← pM b c; let Cw ← pM e b; let Dw ← pM e c
+    pure ("ok " ++ dump (postA Am Aw Bw Cm) ++ " | " ++ dump (postB Bm Bw Dm) ++ " | "
+      ++ dump (postC Cm Cw Dw) ++ " | " ++ dump (postD Dw Dm))
+  | "pre" => do
+    -- dims: model state a, filter state b, filter output = model input c, external input d, model output e
+    let a ← pNat; let b ← pNat; let c ← pNat; let d ← pNat; let e ← pNat
+    let Am ← pM a a; let Bm ← pM a c; let Cm ← pM e a; let Dm ← pM e c
+    let Aw ← pM b b; let Bw ← pM b d; let Cw ← pM c b; let Dw ← pM c d
+    pure ("ok " ++ dump (preA Am Aw Bm Cw) ++ " | " ++ dump (preB Bw Bm Dw) ++ " | "
+      ++ dump (preC Cm Cw Dm) ++ " | " ++ dump (preD Dm Dw))
   | _ => throw s!"bad command {cmd}"
 
 def handleLA (line : String) : String :=
